@@ -830,6 +830,7 @@ class X:
         c.after_havoc(self, k)
         for name, t in inv(self):
             self.assume(t)
+        c.loop_head(self, k)
         variant = c.loop_variant.get(k)
         v0 = variant(self) if variant else None
         g = guard()
@@ -1519,6 +1520,9 @@ class Contract:
 
     def after_havoc(self, X, k):
         pass
+
+    def loop_head(self, X, k):
+        """snapshot hook: called at the head of the generic iteration, after the invariant has been assumed"""
 
     def getattr_hook(self, X, obj, attr):
         return None
